@@ -71,6 +71,10 @@ def check_program(env, prog, label, ndata):
             values.append(r.value)
     if not values:
         return
+    extra = [c for v in values[:3] for c in harness.undefined_variants(t, v)]
+    if extra:
+        env.count("undefined_by_construction_values", len(extra))
+        values += extra
     if any(isinstance(n, ObjectT) and n.methods for n in t.walk()):
         env.count("serialized_method_programs")
     if any(isinstance(n, ObjectT) and n.fields_set for n in t.walk()):
